@@ -35,11 +35,12 @@ func register(f *family) { families[f.name] = f }
 
 // An oracle checks a property statement directly on the real code.
 type oracleFailure struct {
-	Property string      `json:"property"`
-	What     string      `json:"what"`
-	Family   string      `json:"family,omitempty"`
-	Case     string      `json:"case,omitempty"`
-	Detail   interface{} `json:"detail,omitempty"`
+	Property  string      `json:"property"`
+	Signature string      `json:"signature,omitempty"`
+	What      string      `json:"what"`
+	Family    string      `json:"family,omitempty"`
+	Case      string      `json:"case,omitempty"`
+	Detail    interface{} `json:"detail,omitempty"`
 }
 
 type oracleStats struct {
@@ -54,6 +55,8 @@ type oracle struct {
 	prop string
 	name string
 	run  func(r *rng, n int, st *oracleStats) []oracleFailure
+	// replay re-checks one stored failure on the real code (optional)
+	replay func(f oracleFailure) []oracleFailure
 }
 
 var oracles = map[string][]*oracle{}
@@ -118,6 +121,27 @@ func main() {
 		fmt.Println(runGuarded(f, c, 20*time.Second))
 	case "oracle":
 		cmdOracle(*prop, *seed, *n, *out)
+	case "oracle-replay":
+		var f oracleFailure
+		if err := json.Unmarshal([]byte(*cs), &f); err != nil {
+			fmt.Fprintln(os.Stderr, "bad failure json:", err)
+			os.Exit(2)
+		}
+		found := 0
+		for _, o := range oracles[*prop] {
+			if o.replay == nil {
+				continue
+			}
+			for _, g := range o.replay(f) {
+				b, _ := json.Marshal(g)
+				fmt.Println("STILL-FAILS", string(b))
+				found++
+			}
+		}
+		if found > 0 {
+			os.Exit(1)
+		}
+		fmt.Println("no failure reproduced on the current tree")
 	case "coqcases":
 		cmdCoqCases(*in, *k, *out)
 	case "families":
